@@ -22,6 +22,7 @@ it is kept as a `def`, with three counterexamples (each the replay of a recorded
 finding) and the strongest partial theorem `roundtrip_covers`.
 -/
 import CtyModel.Lemmas.MsgpackKnown
+import CtyModel.Lemmas.MsgpackMarks
 namespace CtyModel
 namespace C16
 open Msgpack Refine
@@ -162,6 +163,16 @@ theorem marked_rejected (E : Ext) (t vt : Ty) (ms : List String) (p : Payload) :
     marshal E ⟨vt, .marked ms p⟩ t = .err "value has marks" := by
   simp [marshal, Payload.isMarked]
 
+/-- A mark at any depth: `Marshal` does not succeed, and it does not panic either (what is
+left is an error — or, in the model, an input shape outside the modelled fragment). -/
+theorem marked_nested_rejected (E : Ext) (v : Value) (t : Ty) (h : v.containsMarked = true) :
+    (∀ it, marshal E v t ≠ .ok it) ∧ (∀ w, marshal E v t ≠ .panic w) :=
+  ⟨fun it hm => by simp [marshal_ok_unmarked E v t it hm] at h, marshal_no_panic E v t⟩
+
+/-- `Marshal` never panics, whatever the value and the constraint. -/
+theorem marshal_never_panics (E : Ext) (v : Value) (t : Ty) (w : String) : marshal E v t ≠ .panic w :=
+  marshal_no_panic E v t w
+
 /-! ## Counterexamples to the full statement (replays of recorded findings) -/
 
 /-- (1) float64(2^63), a whole number beyond int64 held at 53 bits, comes back as
@@ -223,6 +234,7 @@ def sampleConstraint : Ty :=
 example : Fits E0 sampleConstraint sample = true ∧ Ty.conformErrs sampleConstraint sampleTy = 0 ∧
     wfValue E0 sample = true ∧ sample.whollyKnown = false := by decide
 example : SetsRebuild E0 sample := noSets rfl
+example : (⟨.list .string, .seq [.s "a", .marked ["m"] (.s "b")]⟩ : Value).containsMarked = true := by decide
 example : Fits E0 .dyn ⟨.list .number, .seq [.n (.fin false 1 63 64), .n (.fin false 1 (-1) 512)]⟩ = true := by decide
 example : numFits (.fin false 1 63 64) = true ∧ numFits (.fin false 3 (-1) 20) = true ∧
     numFits (.fin false 1 63 53) = false := by decide
